@@ -15,6 +15,9 @@
 (*   end    {c}                     callee about to return                 *)
 (*   ret    {c, r}                  reply received by the caller           *)
 (*   cancel {c}                                                            *)
+(*   held {c} | look {c}            submitter c has handed its call over   *)
+(*                                  but is kept from looking at its        *)
+(*                                  context and result / is let go         *)
 (*   term                           the owner's wait for termination (wait *)
 (*                                  group / WaitStop) has just returned    *)
 (*   cfg    {nl, q}                 what SlotSize and QSize / Size report  *)
@@ -32,10 +35,11 @@ EXTENDS Lanes, Json, IOUtils
 
 TraceLog == ndJsonDeserialize(IOEnv.VERIF_TRACE)
 
-VARIABLES pos   \* line of the log
-tvars == <<allvars, pos>>
+VARIABLES pos,    \* line of the log
+          heldc   \* submitters held between handing their call over and looking at context / result
+tvars == <<allvars, pos, heldc>>
 
-TraceInit == pos = 1 /\ InitWith("line", 1, 0, [h \in Hashes |-> 0])
+TraceInit == pos = 1 /\ heldc = {} /\ InitWith("line", 1, 0, [h \in Hashes |-> 0])
 
 TReset(e) ==
   /\ kind' = e.kind /\ nl' = e.nl /\ qsize' = e.qsize
@@ -79,7 +83,7 @@ TStart(e) ==
 (* open: MultiLine.Stop starts its exit signaller even then.)               *)
 TQuiet(e) ==
   /\ ExitSet({x \in LaneIds : CanExit(x)})
-  /\ IF e.final THEN Final' ELSE Quiescent'
+  /\ IF e.final THEN Final' /\ heldc = {} ELSE QuiescentBut(heldc)'
   /\ e.term = (started /\ \A x \in LaneIds : ~up'[x])
   /\ (\E x \in LaneIds : up'[x]) => e.alive    \* a live lane is a live goroutine
   /\ e.term => ~e.alive                        \* after termination nothing of the executor is left
@@ -100,8 +104,14 @@ TCfg(e) == e.nl = nl /\ e.q = qsize /\ UNCHANGED allvars
 
 Consume ==
   /\ pos <= Len(TraceLog) /\ pos' = pos + 1
+  /\ heldc' = (LET e == TraceLog[pos] IN
+                 CASE e.ev = "reset" -> {}
+                   [] e.ev = "held"  -> heldc \cup {e.c}
+                   [] e.ev = "look"  -> heldc \ {e.c}
+                   [] OTHER -> heldc)
   /\ LET e == TraceLog[pos] IN
        CASE e.ev = "reset"  -> TReset(e)
+         [] e.ev \in {"held", "look"} -> UNCHANGED allvars
          [] e.ev = "idx"    -> TIdx(e)
          [] e.ev = "start"  -> TStart(e)
          [] e.ev = "quiet"  -> TQuiet(e)
@@ -136,7 +146,7 @@ CloseAll ==
 (* who may be told "closed"), so it is inferred only then.                  *)
 Silent ==
   /\ pos <= Len(TraceLog) /\ TraceLog[pos].ev # "reset"
-  /\ UNCHANGED pos
+  /\ UNCHANGED <<pos, heldc>>
   /\ \/ \E c \in Calls :
           \/ Step([c |-> c, op |-> "skip"])
           \/ \E r \in {"ok", "full", "closed"}, x \in LaneIds :
